@@ -74,6 +74,19 @@ void * realloc(void * ptr, size_t size)
         return NULL;
     }
     res = malloc(size);
+#ifdef VF_REALLOC_FULLCOPY
+    /* bounded groups with concrete sizes: copy everything (byte loop, sizes are constants there) */
+    if (res != NULL) {
+        const size_t old_ = __CPROVER_OBJECT_SIZE(ptr);
+        const size_t n_ = old_ < size ? old_ : size;
+        size_t i_;
+        for (i_ = 0; i_ < n_; i_++) {
+            res[i_] = ((const char *)ptr)[i_];
+        }
+        free(ptr);
+    }
+    return res;
+#endif
     if (res != NULL) {
         const size_t old = __CPROVER_OBJECT_SIZE(ptr);
         /* VF_KEEP_UNIT (set by the spec TU) is the window length in bytes */
